@@ -29,6 +29,85 @@ fn main() {
         &json!({"behaviours": beh.len(), "combos": combos, "lag_notes": lag, "failing": bad.len(), "failures": bad.into_iter().take(50).collect::<Vec<_>>()}),
       );
     }
+    "peer" => {
+      // vh peer <behaviours.jsonl> <out.json> [--perturb]
+      let beh: Vec<h::peer::Behaviour> = h::util::read_jsonl(&args[2]);
+      let perturb = args.iter().any(|a| a == "--perturb");
+      let seed = h::util::seed_from_env();
+      h::util::quiet_panics();
+      let mut outs = Vec::new();
+      let mut runs = 0usize;
+      for (i, b) in beh.iter().enumerate() {
+        let both = b.cfg_a.mech == "ENC" && b.cfg_b.mech == "ENC";
+        let impls: Vec<h::eng::EncImpl> = if both { vec![h::eng::EncImpl::Curve, h::eng::EncImpl::Noise] } else { vec![h::eng::EncImpl::Noise] };
+        for e in impls {
+          let o = h::peer::run(i, b, e, seed, perturb);
+          runs += 1;
+          if !o.issues.is_empty() {
+            outs.push(serde_json::to_value(&o).unwrap());
+          }
+        }
+      }
+      h::util::write_json(&args[3], &json!({"behaviours": beh.len(), "runs": runs, "with_issues": outs.len(), "outcomes": outs.into_iter().take(200).collect::<Vec<_>>()}));
+    }
+    "script" => {
+      // vh script <behaviours.jsonl> <out.json> [--mutate N] [--perturb]
+      let beh: Vec<h::script::Behaviour> = h::util::read_jsonl(&args[2]);
+      let perturb = args.iter().any(|a| a == "--perturb");
+      let nmut: usize = args.iter().position(|a| a == "--mutate").and_then(|i| args.get(i + 1)).and_then(|s| s.parse().ok()).unwrap_or(0);
+      let expand: usize = args.iter().position(|a| a == "--expand").and_then(|i| args.get(i + 1)).and_then(|s| s.parse().ok()).unwrap_or(1);
+      let seed = h::util::seed_from_env();
+      h::util::quiet_panics();
+      let mut outs = Vec::new();
+      let mut runs = 0usize;
+      let mut mutated_runs = 0usize;
+      for (i, b) in beh.iter().enumerate() {
+        let impls: Vec<h::eng::EncImpl> = if b.cfg.mech == "ENC" { vec![h::eng::EncImpl::Curve, h::eng::EncImpl::Noise] } else { vec![h::eng::EncImpl::Noise] };
+        for e in impls {
+          let o = h::script::run(i, b, e, seed, false, perturb, expand);
+          runs += 1;
+          if !o.issues.is_empty() {
+            outs.push(serde_json::to_value(&o).unwrap());
+          }
+          for m in 0..nmut {
+            let o = h::script::run(i, b, e, seed.wrapping_add(1000 * (m as u64 + 1)), true, false, expand);
+            mutated_runs += 1;
+            if o.issues.iter().any(|x| x.class == "prop") {
+              outs.push(serde_json::to_value(&o).unwrap());
+            }
+          }
+        }
+      }
+      h::util::write_json(&args[3], &json!({"behaviours": beh.len(), "runs": runs, "mutated_runs": mutated_runs, "with_issues": outs.len(), "outcomes": outs.into_iter().take(300).collect::<Vec<_>>()}));
+    }
+    "segment" => {
+      // vh segment <behaviours.jsonl> <out.json>   (C04: outcome independent of read boundaries)
+      let beh: Vec<h::script::Behaviour> = h::util::read_jsonl(&args[2]);
+      let seed = h::util::seed_from_env();
+      h::util::quiet_panics();
+      let mut outs = Vec::new();
+      let mut runs = 0usize;
+      let mut segs = 0usize;
+      let mut seen = std::collections::HashSet::new();
+      for (i, b) in beh.iter().enumerate() {
+        // one run per distinct token sequence (the schedule is varied inside)
+        let key = serde_json::to_string(&(&b.cfg, b.steps.iter().filter(|s| s["a"].as_str() == Some("emit")).collect::<Vec<_>>())).unwrap();
+        let fresh = seen.insert(key);
+        let impls: Vec<h::eng::EncImpl> = if b.cfg.mech == "ENC" { vec![h::eng::EncImpl::Curve, h::eng::EncImpl::Noise] } else { vec![h::eng::EncImpl::Noise] };
+        for e in impls {
+          if !fresh && i % 7 != 0 {
+            continue;
+          }
+          let o = h::script::run_segmentation(i, b, e, seed);
+          runs += 1;
+          segs += o.segmentations;
+          if !o.issues.is_empty() {
+            outs.push(serde_json::to_value(&o).unwrap());
+          }
+        }
+      }
+      h::util::write_json(&args[3], &json!({"behaviours": beh.len(), "runs": runs, "segmentations": segs, "with_issues": outs.len(), "outcomes": outs.into_iter().take(100).collect::<Vec<_>>()}));
+    }
     other => h::util::tool_error(&format!("unknown subcommand {}", other)),
   }
 }
